@@ -600,6 +600,40 @@ class Dumper:
 # canonical renumbering (applied to the Python dump and to the model's answer alike)
 # ---------------------------------------------------------------------------
 
+def byname(world, si):
+    """The by-name dump of schema `si` of a canon world: every address replaced by what it holds, type references by names
+    (what `typeV` / `dirV` are in the model: Props/C14_refine.lean)."""
+    objs = world["objs"]
+
+    def ty(t):
+        return t["n"] if t["k"] == "named" else [t["k"], ty(t["t"])]
+
+    def arg(a):
+        o = objs[a]
+        return {"name": o["name"], "ty": ty(o["ty"]), "py": o["py"], "dflt": o["dflt"], "desc": o["desc"]}
+
+    def field(a):
+        o = objs[a]
+        return {"name": o["name"], "ty": ty(o["ty"]), "args": [arg(x) for x in o["args"]], "desc": o["desc"], "depr": o["depr"],
+                "res": o["res"], "sub": o["sub"], "py": o["py"]}
+
+    def typ(a):
+        o = objs[a]
+        out = {k: o[k] for k in ("kind", "name", "desc", "dres", "rtype", "values", "prot", "cls")}
+        out["ifaces"] = [n for n, _ in o["ifaces"]]
+        out["members"] = [n for n, _ in o["members"]]
+        out["fields"] = [field(x) for x in o["fields"]] if o["kind"] in ("object", "interface") else (
+            [arg(x) for x in o["fields"]] if o["kind"] == "input" else [])
+        return out
+
+    def dr(a):
+        o = objs[a]
+        return {"name": o["name"], "locs": o["locs"], "desc": o["desc"], "args": [arg(x) for x in o["args"]]}
+    s = world["schemas"][si]
+    return {"types": {n: typ(a) for n, a in s["types"]}, "dirs": {n: dr(a) for n, a in s["dirs"]},
+            "roots": [None if s[k] is None else s[k][0] for k in ("query", "mutation", "subscription")], "dres": s["dres"]}
+
+
 def dump_differs(dumper, schema, raw):
     return dumper.dump([schema]) != raw
 
